@@ -194,7 +194,9 @@ def thread_case(arg):
     import pde
     import numba
 
-    shape, seed = arg
+    shape, seed, nt = arg
+    if nt:
+        numba.set_num_threads(nt)
     pde.config["backend.numba.multithreading"] = "always"
     pde.config["backend.numba.multithreading_threshold"] = 16
     rs = np.random.RandomState(seed)
@@ -244,7 +246,7 @@ def run(ctx):
     if loops < 10:
         ctx.disagree("E2", {"loops": loops}, ">= 10 prange loops", loops, "extractor found too few parallel kernels")
 
-    n = ctx.budget(220, 2500)
+    n = ctx.budget(180, 2500)
     cases = [gen_case(rng, ctx.hist) for _ in range(n)]
     batch = LeanBatch(ctx.workdir)
     reqs = [batch.add("c03.apply", model_request(c)) for c in cases]
@@ -257,7 +259,7 @@ def run(ctx):
     if st != "ok" or val[0] != val[1]:
         ctx.disagree("schedule-model", {"perm": perm}, val, None, "model executions differ")
     res_s = run_many("harness.c03", "real_routes", [(c, False) for c in cases], env={"NUMBA_DISABLE_JIT": "1"}, procs=16)
-    n_j = ctx.budget(24, 240)
+    n_j = ctx.budget(16, 240)
     jit_ids = sorted(rng.sample(range(len(cases)), min(n_j, len(cases))))
     res_j = dict(zip(jit_ids, run_many("harness.c03", "real_routes", [(cases[i], True) for i in jit_ids],
                                        env={"NUMBA_DISABLE_JIT": "0"}, procs=16)))
@@ -316,12 +318,10 @@ def run(ctx):
     shapes = [[12, 10]] + ([[6, 5, 4]] if ctx.tier == "thorough" else [])
     seed = rng.randint(0, 10 ** 6)
     for shape in shapes:
-        runs = {}
-        for nt in (1, 2, 16):
-            r = run_many("harness.c03", "thread_case", [(shape, seed)],
-                         env={"NUMBA_DISABLE_JIT": "0", "NUMBA_NUM_THREADS": str(nt)}, procs=1)[0]
-            runs[nt] = r
-        r_serial = run_many("harness.c03", "thread_case", [(shape, seed)], env={"NUMBA_DISABLE_JIT": "1"}, procs=1)[0]
+        rr = run_many("harness.c03", "thread_case", [(shape, seed, nt) for nt in (1, 2, 16)],
+                      env={"NUMBA_DISABLE_JIT": "0", "NUMBA_NUM_THREADS": "16"}, procs=3)
+        runs = dict(zip((1, 2, 16), rr))
+        r_serial = run_many("harness.c03", "thread_case", [(shape, seed, 0)], env={"NUMBA_DISABLE_JIT": "1"}, procs=1)[0]
         for nt, r in runs.items():
             ctx.count({"threads": nt, "shape": shape, "seed": seed}, nontrivial=True, leg="threads")
             ctx.hist("threads", f"{nt}:{'x'.join(map(str, shape))}")
